@@ -201,6 +201,19 @@ def run(tier, seed, replay):
             cfg = pool.merged([kv for kv in p["header"] if kv[0] not in ("style_edition", "version")], [["max_width", w], ["style_edition", ed]] + PRESETS[pr])
             cases.append({"text": p["text"], "config": cfg, "again": False, "lex": False})
             meta.append((p["id"], pr, w, ed))
+    # the synthetic forms of C01 (statement / pattern / expression / item forms x layout presets x widths) under every edition
+    if not replay or rp["pool_id"].startswith("synth/"):
+        from . import c01
+        for name, si, w, text, cfg in c01.synth_cases(tier, seed + 1):
+            if si in (2, 3):
+                continue          # those presets fix style_edition themselves
+            if replay and ("synth/" + name != rp["pool_id"] or str(rp["width"]) != w or rp["preset"] != "syn%d" % si):
+                continue
+            if tier != "thorough" and hkey("%s|%s|%s" % (name, si, w)) % 2:
+                continue
+            for ed in EDITIONS:
+                cases.append({"text": text, "config": [kv for kv in cfg if kv[0] != "style_edition"] + [["style_edition", ed]], "again": False, "lex": False})
+                meta.append(("synth/" + name, "syn%d" % si, w, ed))
     cur = common.run_vh_pool("pool", cases, per_case_timeout=15)
     ref = common.run_vh_pool("", [{"text": c["text"], "config": c["config"]} for c in cases], per_case_timeout=15, exe=common.FROZEN_EXE)
     n_judged = n_old = 0
@@ -238,7 +251,7 @@ def run(tier, seed, replay):
     rep.coverage.update({
         "evaluations": len(cases), "distinct_nontrivial": len(nontrivial),
         "judged_against_pinned": n_judged, "old_edition_triples_compared": n_old,
-        "rule": "(a) regenerated theorems: every StyleEdition literal in formatting code is the right operand of an ordering comparison that is constant on {2015,2018,2021}; every option default is shared by them; the order is the declared one. (b) differential: pool x presets %s x max_width %s x style editions %s (thorough: all; quick: the 1/%d slice selected by the seed): the working tree's output must equal the frozen pinned build's for every input the pinned build formats without error, and 2015 = 2018 = 2021 on the working tree. non-trivial = the pinned build changes the text; distinct by (program, preset, width, edition)" % (list(PRESETS), GRID_W, EDITIONS, MOD),
+        "rule": "(a) regenerated theorems: every StyleEdition literal in formatting code is the right operand of an ordering comparison that is constant on {2015,2018,2021}; every option default is shared by them; the order is the declared one. (b) differential: pool x presets %s x max_width %s x style editions %s (thorough: all; quick: the 1/%d slice selected by the seed), plus the synthetic forms stream of C01 (forms x 4 layout presets x widths) under every edition: the working tree's output must equal the frozen pinned build's for every input the pinned build formats without error, and 2015 = 2018 = 2021 on the working tree. non-trivial = the pinned build changes the text; distinct by (program, preset, width, edition)" % (list(PRESETS), GRID_W, EDITIONS, MOD),
         "samples": [{"pool_id": m[0], "preset": m[1], "width": m[2], "style_edition": m[3]} for m in meta[:4]],
         "programs": len(set(m[0] for m in meta)),
         "harness_build_s": round(bt, 1), "frozen_build_s": round(btf, 1),
